@@ -1,7 +1,6 @@
 package main
 
 import (
-	"bytes"
 	"context"
 	"os"
 	"path/filepath"
@@ -38,7 +37,7 @@ type directWriter struct {
 	target uint64
 	path   string
 	f      *os.File
-	buf    bytes.Buffer
+	buf    *faultStream
 	w      storage.WritableCar
 }
 
@@ -47,7 +46,7 @@ func (d *directWriter) bytes() []byte {
 		return nil
 	}
 	if d.target == 1 {
-		return append([]byte(nil), d.buf.Bytes()...)
+		return append([]byte(nil), d.buf.buf.Bytes()...)
 	}
 	b, _ := os.ReadFile(d.path)
 	return b
@@ -55,7 +54,9 @@ func (d *directWriter) bytes() []byte {
 
 // pre: nil = nothing at the output path; otherwise a file with these bytes (possibly none) is there
 // before the writer is constructed (path target only)
-func runDeferredImpl(work string, target uint64, v1Given bool, o wOpts, roots []cid.Cid, ops VL, pre []byte) Val {
+// faults: write-fault script of the output target (stream targets only: the path target opens its own
+// *os.File, which cannot be interposed without a library hook); the direct writer's stream gets a copy
+func runDeferredImpl(work string, target uint64, v1Given bool, o wOpts, roots []cid.Cid, ops VL, pre []byte, faults []int) Val {
 	ctx := context.Background()
 	dir, err := os.MkdirTemp(work, "df")
 	if err != nil {
@@ -64,7 +65,7 @@ func runDeferredImpl(work string, target uint64, v1Given bool, o wOpts, roots []
 	defer os.RemoveAll(dir)
 	path := filepath.Join(dir, "out.car")
 	dpath := filepath.Join(dir, "direct.car")
-	var stream bytes.Buffer
+	stream := &faultStream{faults: append([]int(nil), faults...)}
 	if target == 0 && pre != nil {
 		if err := os.WriteFile(path, pre, 0o644); err != nil {
 			panic(err)
@@ -75,7 +76,7 @@ func runDeferredImpl(work string, target uint64, v1Given bool, o wOpts, roots []
 	if target == 0 {
 		dcw = deferred.NewDeferredCarWriterForPath(path, roots, opts...)
 	} else {
-		dcw = deferred.NewDeferredCarWriterForStream(&stream, roots, opts...)
+		dcw = deferred.NewDeferredCarWriterForStream(stream, roots, opts...)
 	}
 	// the direct writer gets exactly the effective option list of the deferred constructors
 	dopts := opts
@@ -108,7 +109,7 @@ func runDeferredImpl(work string, target uint64, v1Given bool, o wOpts, roots []
 			out = outOf(dcw.Put(ctx, key, data))
 			if !closed {
 				if direct == nil {
-					d := &directWriter{target: target, path: dpath}
+					d := &directWriter{target: target, path: dpath, buf: &faultStream{faults: append([]int(nil), faults...)}}
 					var w storage.WritableCar
 					var err error
 					if target == 0 {
@@ -118,7 +119,7 @@ func runDeferredImpl(work string, target uint64, v1Given bool, o wOpts, roots []
 						}
 						w, err = storage.NewWritable(d.f, roots, dopts...)
 					} else {
-						w, err = storage.NewWritable(&d.buf, roots, dopts...)
+						w, err = storage.NewWritable(d.buf, roots, dopts...)
 					}
 					if err == nil {
 						d.w = w
@@ -147,7 +148,7 @@ func runDeferredImpl(work string, target uint64, v1Given bool, o wOpts, roots []
 				cur, exists = b, true
 			}
 		} else {
-			cur = append([]byte(nil), stream.Bytes()...)
+			cur = append([]byte(nil), stream.buf.Bytes()...)
 		}
 		obs = append(obs, VL{out, log, VB(cur), vbool(exists), VB(direct.bytes())})
 	}
@@ -160,7 +161,7 @@ func runDeferredImpl(work string, target uint64, v1Given bool, o wOpts, roots []
 	return obs
 }
 
-func deferredInput(target uint64, v1Given bool, o wOpts, roots []cid.Cid, ops VL, pre []byte) Val {
+func deferredInput(target uint64, v1Given bool, o wOpts, roots []cid.Cid, ops VL, pre []byte, faults []int) Val {
 	var rv Val = cidsVal(roots)
 	if roots == nil {
 		rv = VT("nil")
@@ -169,7 +170,15 @@ func deferredInput(target uint64, v1Given bool, o wOpts, roots []cid.Cid, ops VL
 	if pre != nil {
 		pv = VB(pre)
 	}
-	return VL{VN(target), vbool(v1Given), o.val(), rv, ops, pv}
+	fv := VL{}
+	for _, k := range faults {
+		if k < 0 {
+			fv = append(fv, VN(0))
+		} else {
+			fv = append(fv, VL{VN(uint64(k))})
+		}
+	}
+	return VL{VN(target), vbool(v1Given), o.val(), rv, ops, pv, fv}
 }
 
 func init() {
@@ -181,6 +190,10 @@ func init() {
 				pre = append([]byte{}, b...)
 			}
 		}
-		return runDeferredImpl(c.Work, uint64(l[0].(VN)), uint64(l[1].(VN)) != 0, wOptsFromVal(l[2]), cidsFromVal(l[3]), l[4].(VL), pre)
+		var faults []int
+		if len(l) > 6 {
+			faults = faultsFromVal(l[6])
+		}
+		return runDeferredImpl(c.Work, uint64(l[0].(VN)), uint64(l[1].(VN)) != 0, wOptsFromVal(l[2]), cidsFromVal(l[3]), l[4].(VL), pre, faults)
 	})
 }
